@@ -221,6 +221,15 @@ func cmdCheck(args []string) int {
 	}
 	work := filepath.Join(outDir, "work", prop)
 	os.RemoveAll(work)
+	tDis := time.Now()
+	if os.Getenv("VERIF_VERBOSE") != "" {
+		fmt.Printf("  symbolic execution done after %.1fs, %d obligation instances\n", time.Since(start).Seconds(), len(all))
+	}
+	defer func() {
+		if os.Getenv("VERIF_VERBOSE") != "" {
+			fmt.Printf("  discharge took %.1fs\n", time.Since(tDis).Seconds())
+		}
+	}()
 	if err := Discharge(all, work, timeout); err != nil {
 		return engineErr("%v", err)
 	}
